@@ -57,7 +57,9 @@ class Emulation:
 
     def bound(self, tier):
         n = 60 if tier == "quick" else 1200
-        return f"{n} seeded random user configurations x 3 command lines each, plus all alias graphs over 3 names (chains, cycles, dangling)"
+        m = 40 if tier == "quick" else 600
+        return (f"{n} seeded random user configurations x 3 command lines each, all alias graphs over 3 names (chains, cycles, "
+                f"dangling), and {m} seeded user configurations that EXTEND a built-in compiler (options, a new mode) x 2 command lines")
 
     def inputs(self, tier, seed):
         # alias graphs: every function {a,b,c} -> {a,b,c,missing,None}
@@ -66,6 +68,8 @@ class Emulation:
             yield {"kind": "alias", "targets": list(tgt)}
         for i in range(60 if tier == "quick" else 1200):
             yield {"kind": "config", "seed": seed * 65537 + i}
+        for i in range(40 if tier == "quick" else 600):
+            yield {"kind": "extend", "seed": seed * 65537 + i}
 
     def nontrivial(self, inp):
         return True
@@ -75,9 +79,10 @@ class Emulation:
         d = tempfile.mkdtemp(prefix="cbi_c12_")
         cwd = os.getcwd()
         try:
-            os.makedirs(os.path.join(d, ".cbi"))
-            with open(os.path.join(d, ".cbi", "config"), "w") as fh:
-                fh.write(toml_dump(compilers))
+            if compilers is not None:
+                os.makedirs(os.path.join(d, ".cbi"))
+                with open(os.path.join(d, ".cbi", "config"), "w") as fh:
+                    fh.write(toml_dump(compilers))
             os.chdir(d)
             config._compilers = None
             return fn()
@@ -89,7 +94,67 @@ class Emulation:
     def check(self, inp):
         if inp["kind"] == "alias":
             return self.check_alias(inp)
+        if inp["kind"] == "extend":
+            return self.check_extend(inp)
         return self.check_config(inp)
+
+    BUILTIN_FLAGS = {"nvcc": [["-fopenmp"], ["--gpu-architecture", "sm_80"], ["--gpu-code", "sm_75"], ["-gencode", "arch=compute_90,code=sm_90"]],
+                     "gcc": [["-fopenmp"]], "g++": [["-fopenmp"]], "clang": [["-fopenmp"]], "clang++": [["-fopenmp"]],
+                     "icx": [["-fopenmp"], ["-fsycl"], ["-fsycl-targets=spir64_gen,spir64"]],
+                     "icpx": [["-fopenmp"], ["-fsycl"], ["-fsycl-targets=spir64_x86_64"]]}
+    REAL = {"g++": "gcc", "clang++": "clang", "icpx": "icx"}
+
+    def check_extend(self, inp):
+        """a user configuration EXTENDS a built-in compiler: its implicit options act as if appended to every command
+        line (next to the built-in ones), a mode it adds works next to the built-in modes"""
+        rng = random.Random(inp["seed"])
+        invoked = rng.choice(sorted(self.BUILTIN_FLAGS))
+        real = self.REAL.get(invoked, invoked)
+        uopts = ["-DUSEROPT"] + rng.sample(["-DUSER2=2", "-I/uopt", "-fopenmp"], rng.randint(0, 2))
+        with_mode = rng.random() < 0.5
+        comp = {real: {"options": uopts}}
+        if with_mode:
+            comp[real]["parser"] = [{"flags": ["-fumode"], "action": "append_const", "dest": "modes", "const": "umode"}]
+            comp[real]["modes"] = [{"name": "umode", "defines": ["UMODE"], "include_paths": ["/umode"]}]
+        cmds = []
+        for _ in range(2):
+            argv = ["-DUSER", "-I/u"]
+            for fl in self.BUILTIN_FLAGS[invoked]:
+                if rng.random() < 0.5:
+                    argv += fl
+            cmds.append(argv)
+
+        def run(extra_of):
+            def go():
+                res = []
+                for argv in cmds:
+                    try:
+                        cfgs = config.ArgumentParser("/opt/bin/" + invoked).parse_args(list(argv) + extra_of(argv))
+                        res.append({c.pass_name: (sorted(c.defines), sorted(c.include_paths), sorted(c.include_files)) for c in cfgs})
+                    except Exception as e:      # noqa: BLE001
+                        res.append(f"raised {type(e).__name__}: {e}")
+                return res
+            return go
+        base = self.in_dir(None, run(lambda argv: list(uopts)))                 # no user file, options on the command line
+        user = self.in_dir(comp, run(lambda argv: []))                          # the same options as implicit user options
+        for argv, b, u in zip(cmds, base, user):
+            if b != u:
+                return {"argv": [invoked] + argv, "expected": f"as with {uopts} appended to the command line: {b}", "observed": u,
+                        "klass": "emulation:user-options-extend-the-built-in-compiler", "config": toml_dump(comp)}
+        if with_mode:
+            usermode = self.in_dir(comp, run(lambda argv: ["-fumode"]))
+            for argv, u, um in zip(cmds, user, usermode):
+                if isinstance(u, str) or isinstance(um, str):
+                    if u != um:
+                        return {"argv": [invoked] + argv + ["-fumode"], "expected": "no exception", "observed": um,
+                                "klass": "emulation:user-mode-on-a-built-in-compiler"}
+                    continue
+                want = {pn: ((sorted(d + ["UMODE"]), sorted(i + ["/umode"]), f) if pn == "default" else (d, i, f))
+                        for pn, (d, i, f) in u.items()}
+                if um != want:
+                    return {"argv": [invoked] + argv + ["-fumode"], "expected": want, "observed": um,
+                            "klass": "emulation:user-mode-on-a-built-in-compiler", "config": toml_dump(comp)}
+        return None
 
     def check_alias(self, inp):
         names = ["ca", "cb", "cc"]
